@@ -20,6 +20,9 @@
 #ifndef OPS
 #    define OPS "PPPF"
 #endif
+#ifndef NP
+#    define NP 4 /* number of put operations in OPS: bounds every walk over the entries */
+#endif
 #define NK 4
 #define NC 3
 static uint8_t keyobj[NK];
@@ -33,12 +36,12 @@ static bool eq_fn(const void *a, const void *b) { return cls(kidx(a)) == cls(kid
 static void dk(void *k) { kd[kidx(k)]++; }
 static void dv(void *v) { vd[(size_t)((uint8_t *)v - valobj)]++; }
 /* reference: entries in policy order (front = next victim for FIFO/LRU; for LIFO the victim is the most recent before the new one) */
-static size_t r_key[8], r_val[8], r_n;
+static size_t r_key[NP + 1], r_val[NP + 1], r_n;
 static unsigned exp_kd[NK], exp_vd[16];
-static long r_find(size_t c) { for (size_t i = 0; i < 8; ++i) if (i < r_n && cls(r_key[i]) == c) return (long)i; return -1; }
+static long r_find(size_t c) { for (size_t i = 0; i < NP; ++i) if (i < r_n && cls(r_key[i]) == c) return (long)i; return -1; }
 static void r_erase(size_t i, bool destroy) {
     if (destroy) { exp_kd[r_key[i]]++; exp_vd[r_val[i]]++; }
-    for (size_t j = 0; j < 7; ++j) if (j >= i && j + 1 < r_n) { r_key[j] = r_key[j + 1]; r_val[j] = r_val[j + 1]; }
+    for (size_t j = 0; j + 1 < NP + 1; ++j) if (j >= i && j + 1 < r_n) { r_key[j] = r_key[j + 1]; r_val[j] = r_val[j + 1]; }
     r_n--;
 }
 static void r_put(size_t k, size_t v) {
@@ -60,7 +63,7 @@ static const struct aws_linked_list *the_list(void) { return aws_linked_hash_tab
 static void chk_state(void) {
     const struct aws_linked_list *l = the_list();
     const struct aws_linked_list_node *n = aws_linked_list_begin(l);
-    for (size_t i = 0; i < 8; ++i)
+    for (size_t i = 0; i < NP; ++i)
         if (i < r_n) {
             ASSERT(n != aws_linked_list_end(l), "order: the table holds every entry of the reference map");
             const struct aws_linked_hash_table_node *e = AWS_CONTAINER_OF(n, struct aws_linked_hash_table_node, node);
@@ -75,7 +78,11 @@ static void chk_state(void) {
     for (size_t v = 0; v < 16; ++v) ASSERT(vd[v] == exp_vd[v], "value destructor runs exactly once per displaced value, never otherwise");
 }
 void h_cache_program(void) {
+#ifdef HSET
+    { static const char hs[] = HSET; for (size_t c = 0; c < NC; ++c) H[c] = (uint64_t)(hs[c] - '0'); } /* hash values fixed per job (collision pattern enumerated) */
+#else
     for (size_t c = 0; c < NC; ++c) H[c] = nd_u64();
+#endif
     if (KIND == 0) ASSERT(aws_linked_hash_table_init(&lht, verif_allocator(), hash_fn, eq_fn, dk, dv, MAXI) == AWS_OP_SUCCESS, "init");
     else {
         cache = KIND == 1 ? aws_cache_new_fifo(verif_allocator(), hash_fn, eq_fn, dk, dv, MAXI)
@@ -85,7 +92,11 @@ void h_cache_program(void) {
     static const char ops[] = OPS;
     size_t nextv = 0;
     for (size_t s = 0; s < sizeof(OPS) - 1; ++s) {
+#ifdef KEYS
+        static const char ks[] = KEYS; size_t k = (size_t)(ks[s] - '0');
+#else
         size_t k = nd_u8() % NK;
+#endif
         size_t c = cls(k);
         char op = ops[s];
         if (op == 'P') {
